@@ -9,7 +9,7 @@ def print(*a, **k):
     _print(*a, **k, file=_out)
 print("| id | property | needs to manifest | caught by (quick tier) | first mechanism reported |")
 print("|---|---|---|---|---|")
-for d in sorted((ROOT / "seeded").iterdir()):
+for d in sorted(x for x in (ROOT / "seeded").iterdir() if x.is_dir()):
     m = json.loads((d / "meta.json").read_text())
     mech = ""
     missed_first = False
